@@ -86,6 +86,11 @@ static bool gen_c10(uint64_t seed, const std::string &tier, uint64_t i, Plan &p)
     do_hup();
     for (int m = 0; m < 2; m++) { Json inj = Json::obj(); inj.set("op", "inject").set("id", "n" + std::to_string(m + 1)).set("body_len", 10).set("body_seed", m).set("sender", "s@x.example"); Json rc = Json::arr(); int nr = (int)r.range(2, 6); for (int q = 0; q < nr; q++) rc.push(rand_rcpt()); inj.set("rcpts", rc); p.ops.push(inj); p.ops.push(Json::obj().set("op", "yield").set("n", (long long)r.range(1, 200))); }
   }
+  // a second HUP whose handler runs while the reread for the first one is still under way (the files may have changed again since they
+  // were read): it must lead to another reread
+  if (hup && r.chance(0.3)) { Fault f; f.actor = "qmail-send"; f.kind = r.chance(0.7) ? "signal" : "signal_after"; f.arg = 1 /* SIGHUP */; int w = (int)r.below(4);
+    if (w == 0) { f.call = C_CHDIR; f.path = "/queue"; f.nth = 2; } else if (w == 1) { f.call = C_OPEN; f.path = "/control/virtualdomains"; f.nth = 2; } else if (w == 2) { f.call = C_OPEN; f.path = "/control/locals"; f.nth = 2; } else { f.call = C_CLOSE; f.path = "/control/virtualdomains"; f.nth = 2; }
+    p.faults.push_back(f); }
   int dist = (int)(i % 6);
   if (dist == 4) { Fault f; f.actor = "qmail-send"; f.call = C_ANY; f.nth = (int)r.range(30, 400); f.kind = r.chance(0.5) ? "kill" : "crash"; f.image = r.pick(std::vector<std::string>{"worst", "best", "random"}); p.faults.push_back(f); }
   if (dist == 5 && hup) { Fault f; f.actor = "qmail-send"; f.call = C_READ; f.path = r.chance(0.5) ? "control/locals" : "control/virtualdomains"; f.nth = 2; f.kind = "error"; f.err = EIO; p.faults.push_back(f); }
